@@ -108,12 +108,22 @@ pub fn execute_range(prop: &dyn Prop, cfg: &RunCfg, known: &[Known]) -> Summary 
     std::thread::scope(|scope| {
         // watchdog: a run that does not return is a hang
         scope.spawn(|| {
+            // "hang" = no heartbeat (no access to the simulated kernel, no call on a scripted stream)
+            // for HANG_SECS, not "the run took long": a long history on a loaded machine is not a hang
+            let mut last_beat: Vec<u64> = vec![0; slots.len()];
+            let mut last_move: Vec<Instant> = vec![Instant::now(); slots.len()];
             while !finished.load(Ordering::Relaxed) {
                 std::thread::sleep(Duration::from_millis(250));
-                for s in slots.iter() {
+                for (k, s) in slots.iter().enumerate() {
                     let g = s.lock().unwrap();
+                    let b = simkernel::heartbeat::read(k);
+                    if b != last_beat[k] {
+                        last_beat[k] = b;
+                        last_move[k] = Instant::now();
+                    }
                     if let Some(t) = g.started {
-                        if t.elapsed() > Duration::from_secs(HANG_SECS) {
+                        let quiet_since = if last_move[k] > t { last_move[k] } else { t };
+                        if quiet_since.elapsed() > Duration::from_secs(HANG_SECS) {
                             // no case yet: the hang is inside the generator (server-level generators
                             // drive the real server to draw adaptive steps); the replay regenerates
                             let gen_case = json::obj(vec![
@@ -123,7 +133,7 @@ pub fn execute_range(prop: &dyn Prop, cfg: &RunCfg, known: &[Known]) -> Summary 
                                 ("thorough", J::Bool(cfg.tier == Tier::Thorough)),
                             ]);
                             let what = if g.case.is_some() { "run" } else { "generating run" };
-                            let v = Violation::new(&format!("{}:hang", prop_id), 0, format!("{} {} did not return within {} s", what, g.index, HANG_SECS));
+                            let v = Violation::new(&format!("{}:hang", prop_id), 0, format!("{} {} made no progress for {} s", what, g.index, HANG_SECS));
                             let case: &J = match g.case.as_ref() {
                                 Some(c) => c,
                                 None => &gen_case,
@@ -157,6 +167,7 @@ pub fn execute_range(prop: &dyn Prop, cfg: &RunCfg, known: &[Known]) -> Summary 
             let known_sigs = &known_sigs;
             let done_count = &done_count;
             handles.push(scope.spawn(move || {
+                simkernel::heartbeat::set_slot(t);
                 let mut st = Stats::default();
                 let mut local_digest = 0u64;
                 loop {
@@ -311,26 +322,37 @@ pub fn seq_watch_set(job: Option<SeqJob>) {
 }
 
 pub fn spawn_seq_watchdog() {
-    std::thread::spawn(|| loop {
+    let main_slot = simkernel::heartbeat::slot();
+    std::thread::spawn(move || {
+        let mut last_beat = 0u64;
+        let mut last_move = Instant::now();
+        loop {
         std::thread::sleep(Duration::from_millis(500));
+        let b = simkernel::heartbeat::read(main_slot);
+        if b != last_beat {
+            last_beat = b;
+            last_move = Instant::now();
+        }
         let g = SEQ_WATCH.lock().unwrap();
         if let Some((t, job)) = g.as_ref() {
-            if t.elapsed() > Duration::from_secs(HANG_SECS) {
+            let quiet_since = if last_move > *t { last_move } else { *t };
+            if quiet_since.elapsed() > Duration::from_secs(HANG_SECS) {
                 match job {
                     SeqJob::Regression { pid, file } => {
                         println!("VIOLATION property={} replay={}", pid, file);
-                        println!("  class={}:hang detail=replaying this regression input did not return within {} s", pid, HANG_SECS);
+                        println!("  class={}:hang detail=replaying this regression input made no progress for {} s", pid, HANG_SECS);
                     }
                     SeqJob::Minimise { pid, verif_dir, seed, index, best, v, original } => {
                         // a shrink candidate hangs: report the violation with the smallest case found so far
                         let path = write_replay(verif_dir, pid, *seed, *index, best, v, Some(original));
                         println!("VIOLATION property={} replay={}", pid, path);
-                        println!("  class={} step={} run_index={} (minimisation stopped: a candidate did not return within {} s)", v.class, v.step, index, HANG_SECS);
+                        println!("  class={} step={} run_index={} (minimisation stopped: a candidate made no progress for {} s)", v.class, v.step, index, HANG_SECS);
                         println!("  detail={}", v.detail);
                     }
                 }
                 std::process::exit(1);
             }
+        }
         }
     });
 }
